@@ -4,7 +4,7 @@ HERE = os.path.dirname(os.path.abspath(__file__))
 sys.path.insert(0, HERE); sys.path.insert(0, os.path.join(HERE, "extract"))
 import vlib
 GENS = [("Macros", "gen_macros")]
-for extra in ("gen_emit", "gen_loadstore", "gen_literals", "gen_files", "gen_atomics", "gen_reader", "gen_array", "gen_wasi", "gen_wasipath", "gen_memfuncs", "gen_instantiate", "gen_initmem", "gen_atomic_emit", "gen_bufread", "gen_wasi_raw"):
+for extra in ("gen_emit", "gen_loadstore", "gen_literals", "gen_files", "gen_atomics", "gen_reader", "gen_array", "gen_wasi", "gen_wasipath", "gen_memfuncs", "gen_instantiate", "gen_initmem", "gen_atomic_emit", "gen_bufread", "gen_wasi_raw", "gen_mangle", "gen_inittables"):
     if os.path.exists(os.path.join(HERE, "extract", extra + ".py")):
         mod = __import__(extra)
         GENS.append((mod.GEN_NAME, extra))
